@@ -260,10 +260,16 @@ def _realise_path(case):
     a = [z3.Int("a_%d" % r) for r in range(R)]
     b = [z3.Int("b_%d" % p) for p in range(Pn)]
     kk = z3.Int("k")
-    DEN = 64
-    for bound in (3, 6):
+    npairs = sum(1 for row in case["flags"] for f in row if f)
+    import time as _time
+    for bound, DEN in ((3, 64), (6, 64), (1 << 20, 1024)):     # the last one: scores within a floating-point tolerance of the threshold need large instances
+        if bound > 100 and npairs > 1:
+            continue        # large instances only for a single overlapping pair (the non-linear query does not finish otherwise)
+        if _REFINE["spent"] > 300:
+            return None     # refinement budget of one replay session used up
+        t_ref = _time.time()
         s = z3.Solver()
-        s.set("timeout", 20000)
+        s.set("timeout", 20000 if bound < 100 else 60000)
         for r in range(R):
             s.add(a[r] >= 0, a[r] <= bound)
             for p in range(Pn):
@@ -284,12 +290,17 @@ def _realise_path(case):
                 sub.append((decls["s_%d_%s" % (r, "".join(map(str, sorted(q))))], z3.ToReal(num) / z3.ToReal(den)))
         for c in cons:
             s.add(z3.substitute(c, *sub))
-        if str(s.check()) == "sat":
+        verdict = str(s.check())
+        _REFINE["spent"] += _time.time() - t_ref
+        if verdict == "sat":
             m = s.model()
             g = lambda x: m.eval(x, True).as_long()
             pred, ref = sets_1d_from_counts([[g(n[r][p]) for p in range(Pn)] for r in range(R)], [g(x) for x in a], [g(x) for x in b])
             return {"pred": pred, "ref": ref, "thr": g(kk) / DEN}
     return None
+
+
+_REFINE = {"spent": 0.0}
 
 
 def _run_real(arrs, case, mode, expect):
